@@ -165,6 +165,13 @@ pub struct Poller {
     pub wk: Arc<CountWaker>,
     waker: Waker,
     pub dead: bool,
+    /// Present a different waker (`will_wake` false) at every poll. Each waker has its own wake
+    /// counter, so that "the waker of the last Pending poll was woken" can be told from "some
+    /// older waker was woken".
+    pub fresh: bool,
+    /// wake counter of the waker presented at the most recent poll
+    pub last: Arc<CountWaker>,
+    all: Vec<Arc<CountWaker>>,
 }
 
 impl Drop for Poller {
@@ -183,13 +190,22 @@ impl Poller {
         Poller {
             body: LeakOnUnwind::new(Box::pin(body)),
             waker: Waker::from(wk.clone()),
+            last: wk.clone(),
+            all: vec![wk.clone()],
             wk,
             dead: false,
+            fresh: false,
         }
     }
 
+    /// Wake-ups delivered to any waker this poller ever presented.
     pub fn wakes(&self) -> usize {
-        self.wk.0.load(Ordering::SeqCst)
+        self.all.iter().map(|w| w.0.load(Ordering::SeqCst)).sum()
+    }
+
+    /// Wake-ups delivered to the waker presented at the most recent poll.
+    pub fn last_waker_wakes(&self) -> usize {
+        self.last.0.load(Ordering::SeqCst)
     }
 
     pub fn sample(&self) -> Result<Sample, String> {
@@ -205,6 +221,12 @@ impl Poller {
     }
 
     pub fn poll(&mut self) -> Obs {
+        if self.fresh {
+            let wk = Arc::new(CountWaker(AtomicUsize::new(0)));
+            self.waker = Waker::from(wk.clone());
+            self.last = wk.clone();
+            self.all.push(wk);
+        }
         let mut cx = Context::from_waker(&self.waker);
         let r = catch_unwind(AssertUnwindSafe(|| self.body.as_mut().poll_frame(&mut cx)));
         match r {
